@@ -123,8 +123,10 @@ func v25check(gen func(tag string, like *v25val) v25val, nums bool) {
 	lists := !(nums && !rt.Thorough()) && rt.Pick("lists", 2) == 1 // shapes with two literals
 	c := gen("c", nil)
 	var f, d v25val
-	if nums && (lists || !rt.Thorough()) {
-		f = gen("f", &c) // numbers, quick and every list or range: all of one sign and digit count
+	// numbers: f is of the sign and digit count of c, except (thorough) in f op c
+	mixed := nums && !lists && rt.Thorough() && rt.Pick("mixed", 2) == 1
+	if nums && !mixed {
+		f = gen("f", &c)
 	} else {
 		f = gen("f", nil)
 	}
@@ -141,7 +143,7 @@ func v25check(gen func(tag string, like *v25val) v25val, nums bool) {
 		shape = 3 + rt.Pick("shape", 2)
 	} else {
 		shapes := []int{0, 1, 2, 5, 6, 7}
-		if nums && !rt.Thorough() {
+		if nums && (mixed || !rt.Thorough()) {
 			shapes = []int{0} // the other shapes evaluate the same comparisons
 		}
 		shape = shapes[rt.Pick("shape", len(shapes))]
@@ -193,7 +195,7 @@ func v25check(gen func(tag string, like *v25val) v25val, nums bool) {
 	case 6: // f op c and/or g op d (g, d are f, c again; quick: the second operator is is or <)
 		t1 := v25cmp[rt.Pick("tok", 6)]
 		t2 := []tok.Token{tok.Is, tok.Lt}[rt.Pick("tok2", 2)]
-		if rt.Thorough() {
+		if rt.Thorough() && !nums {
 			t2 = v25cmp[rt.Pick("tok3", 6)]
 		}
 		cmpPair(t1, f, c)
@@ -323,7 +325,7 @@ func v25num(digits []int) func(tag string, like *v25val) v25val {
 // C25 numbers: every field and literal a symbolic integer (small-int representation, packed by
 // the real code through dnum.FromInt).
 //
-//symgo:harness prop=C25 tier=quick arith=int shards=3 tshards=16 timeout=300 ttimeout=1700 qtimeout=20000 bounds=quick:_f_op_c_(is_isnt_<_<=_>_>=)_with_f_and_c_any_two_integers_of_3_digits_and_the_same_sign;thorough:_all_shapes_of_VerifC25Raw,_fields_and_literals_each_zero_or_any_integer_of_3_digits,_either_sign_(in_lists_and_ranges_all_three_of_one_sign_and_digit_count) outside=decimals_with_fractions;integers_of_other_digit_counts_(the_order_of_all_packed_numbers_is_C13)
+//symgo:harness prop=C25 tier=quick arith=int shards=3 tshards=16 timeout=300 ttimeout=1700 qtimeout=20000 bounds=quick:_f_op_c_(is_isnt_<_<=_>_>=)_with_f_and_c_any_two_integers_of_3_digits_and_the_same_sign;thorough:_all_shapes_of_VerifC25Raw_with_fields_and_literals_zero_or_integers_of_3_digits,_all_of_one_sign_and_digit_count,_and_f_op_c_with_any_mix_of_those outside=decimals_with_fractions;integers_of_other_digit_counts_(the_order_of_all_packed_numbers_is_C13)
 func VerifC25RawNum() {
 	digits := []int{3}
 	if rt.Thorough() {
